@@ -51,7 +51,7 @@ Fixpoint script_items (evs : list sevent) : list Z :=
   | _ :: t => script_items t
   end.
 
-(* SScript/SScriptNC are stream-only sources; the iterator reading keeps their items only. *)
+(* SScript/SScriptNC/SError are stream-only sources; the iterator reading keeps their items only. *)
 Definition isrc_init (s : source) : isrc :=
   match s with
   | SSlice l => ISlice l
@@ -61,6 +61,7 @@ Definition isrc_init (s : source) : isrc :=
   | SChan l => ISlice l
   | SScript evs => ISlice (script_items evs)
   | SScriptNC evs => ISlice (script_items evs)
+  | SError _ => ISlice []
   end.
 
 Definition isrc_next (s : isrc) : option Z * isrc :=
